@@ -71,6 +71,15 @@ Theorem C21_source_facts :
   gen_server_uses_build_auth = true /\
   gen_ws_credentials_set_when_auth_enabled = true /\
   gen_ws_store_hashed_else_static = true /\
-  gen_ws_gate_before_accept = true.
+  gen_ws_gate_before_accept = true /\
+  (* the credential check: the stores accept only through the one comparison
+     ([store_valid]: bc h p, resp. byte equality), look up exactly the
+     presented user name, read no package-level state (no remembered
+     logins), and Authenticate succeeds only after that check *)
+  gen_hashed_valid_true_only_when_bcrypt_compare_is_nil = true /\
+  gen_static_valid_true_only_when_passwords_compare_equal = true /\
+  gen_valid_looks_up_exactly_the_presented_user = true /\
+  gen_valid_reads_no_package_state = true /\
+  gen_authenticate_succeeds_only_after_valid = true.
 Proof. repeat split; reflexivity. Qed.
 Print Assumptions C21_source_facts.
